@@ -5,7 +5,12 @@
    - the forced successor (allow_inapplicable_actions=True);
    - the denotation used by the theorems (Proofs.C03_Defs.denote_effs of the model's action) is compared with the
      independent reading of the same text (Spec.Grammar) through the successor it yields.
-   A compact form (states as indices into a table) carries the exhaustive small scope. *)
+   A compact form (states as indices into a table) carries the exhaustive small scope.
+   Round 3: call SEQUENCES on one Operator object (seq3): the same Operator applied k times along a chain
+   s0 -> s1 -> s2 ..., and to several unrelated states in turn; every returned state is compared with the model's
+   apply_op on the MODEL's previous state and with the spec successor of the SPEC's previous state (the model and the
+   spec are functions of the state: an Operator object that remembers anything between two calls disagrees), and the
+   returned State objects are read a second time after the last call of the sequence. *)
 From Coq Require Import List Ascii String Bool Arith PrimFloat.
 From Verif Require Import Base.Result Base.Str Base.Sexp Base.PyDict Base.Float
   Model.Tokenizer Model.Types Model.Domain Model.Exec Spec.Pddl Spec.Grammar Corr.Common Corr.Core Proofs.C03_Defs.
@@ -26,24 +31,52 @@ Record probe3 := {
   q_forced : obs state              (* Operator.apply(state, allow_inapplicable_actions=True), same order *)
 }.
 
+(* ---------- call sequences on one Operator object ---------- *)
+(* the state handed to the next call: what the previous call of the sequence returned (the state that call was given
+   when it raised; the start state for the first call), or a fresh state *)
+Inductive ssrc := SPrev | SFrom (s : state).
+
+Record sstep := {
+  ss_src : ssrc;
+  ss_allow : bool;                  (* allow_inapplicable_actions *)
+  ss_succ : obs state;              (* what the call returned, read back at once *)
+  ss_valerr : bool;                 (* ... it raised ValueError *)
+  ss_late : option (obs state)      (* the returned State object read back again after the LAST call of the sequence;
+                                       None = the same facts and values as at once *)
+}.
+
+Record seq3 := {
+  sq_action : string;
+  sq_args : list string;
+  sq_start : state;
+  sq_order : list nat;
+  sq_uorder : list nat;
+  sq_steps : list sstep
+}.
+
 Record world3 := {
   v_text : string;
   v_nums : list (string * float);
   v_eps : float;
   v_objs : objects;
-  v_probes : list probe3
+  v_probes : list probe3;
+  v_seqs : list seq3
 }.
 
 Definition core_world (w : world3) : world :=
   {| w_text := v_text w; w_nums := v_nums w; w_eps := v_eps w; w_objs := v_objs w; w_oof := false;
      w_parsed := Raised; w_probes := [] |}.
 
-Definition run_model (w : world3) (d : mdomain) (p : probe3) (allow : bool) : result state :=
-  match dget (d_actions d) (q_action p) with
+Definition run_model_at (w : world3) (d : mdomain) (action : string) (args : list string) (order uorder : list nat)
+           (s : state) (allow : bool) : result state :=
+  match dget (d_actions d) action with
   | None => Err EKey
-  | Some a => do ga <- ground_action d a (q_args p);
-              apply_op d (v_eps w) ga (Some (quantification_objects d (v_objs w))) allow false (q_order p) (q_uorder p) (q_state p)
+  | Some a => do ga <- ground_action d a args;
+              apply_op d (v_eps w) ga (Some (quantification_objects d (v_objs w))) allow false order uorder s
   end.
+
+Definition run_model (w : world3) (d : mdomain) (p : probe3) (allow : bool) : result state :=
+  run_model_at w d (q_action p) (q_args p) (q_order p) (q_uorder p) (q_state p) allow.
 
 Definition is_evalue {A} (r : result A) : bool := match r with Err EValue => true | _ => false end.
 
@@ -93,10 +126,68 @@ Definition judge_probe (w : world3) (md : mdomain) (sd : sdomain) (p : probe3) :
 
 Definition broken : verdict := {| v_agree := false; v_ok := true; v_known := false |}.
 
+(* ----- sequences: the model's chain and the spec's chain run side by side ----- *)
+Definition late_ok (expected : obs state) (l : option (obs state)) : bool :=
+  match l with None => true | Some o => obs_eqb state_equiv expected o end.
+
+Record step_view := {
+  sv_model : obs state; sv_app : bool; sv_cons : bool; sv_spec : state; sv_agree : bool; sv_ok : bool
+}.
+
+Section Seq.
+  Variables (w : world3) (md : mdomain) (sd : sdomain) (A : action) (q : seq3).
+  Let eps := v_eps w.
+  Let tt := spec_tt sd.
+  Let objs := dupdate (sd_consts sd) (v_objs w).
+
+  (* one call: (what the model / the spec say, the model's and the spec's next "previous state") *)
+  Definition seq_step (m_cur s_cur : state) (st : sstep) : step_view * state * state :=
+    let m_in := match ss_src st with SPrev => m_cur | SFrom s => s end in
+    let s_in := match ss_src st with SPrev => s_cur | SFrom s => s end in
+    let m_res := run_model_at w md (sq_action q) (sq_args q) (sq_order q) (sq_uorder q) m_in (ss_allow st) in
+    let cons_m := consistent (all_groups eps tt objs A (sq_args q) m_in) in
+    let cons_s := consistent (all_groups eps tt objs A (sq_args q) s_in) in
+    let app := applicable eps tt objs A (sq_args q) s_in in
+    let nxt := successor eps tt objs A (sq_args q) s_in in
+    let agree :=
+      Bool.eqb (is_evalue m_res) (ss_valerr st) &&
+      (if cons_m then obs_eqb state_equiv (obs_of_result m_res) (ss_succ st) && late_ok (obs_of_result m_res) (ss_late st)
+       else Bool.eqb (is_ok m_res) (negb (obs_raised (ss_succ st)))) in
+    let ok :=
+      if app || ss_allow st then
+        (if cons_s then obs_eqb state_equiv (Returned nxt) (ss_succ st) && late_ok (Returned nxt) (ss_late st)
+         else negb (obs_raised (ss_succ st)))
+      else obs_raised (ss_succ st) && ss_valerr st in
+    (* where the firing effects are inconsistent PDDL does not define the state: both chains go on from the state
+       the implementation returned *)
+    let observed (dflt : state) := match ss_succ st with Returned x => x | Raised => dflt end in
+    let m_next := if cons_m then match m_res with Ok s' => s' | Err _ => m_in end else observed m_in in
+    let s_next := if app || ss_allow st then (if cons_s then nxt else observed s_in) else s_in in
+    ({| sv_model := obs_of_result m_res; sv_app := app; sv_cons := cons_s; sv_spec := nxt; sv_agree := agree; sv_ok := ok |},
+     m_next, s_next).
+
+  Fixpoint seq_views (m_cur s_cur : state) (steps : list sstep) : list step_view :=
+    match steps with
+    | [] => []
+    | st :: r => let '(v, m', s') := seq_step m_cur s_cur st in v :: seq_views m' s' r
+    end.
+End Seq.
+
+Definition judge_seq (w : world3) (md : mdomain) (sd : sdomain) (q : seq3) : verdict :=
+  match find_action sd (sq_action q), dget (d_actions md) (sq_action q) with
+  | Some A, Some _ =>
+      let vs := seq_views w md sd A q (sq_start q) (sq_start q) (sq_steps q) in
+      {| v_agree := forallb sv_agree vs; v_ok := forallb sv_ok vs; v_known := false |}
+  | _, _ =>
+      let r := forallb (fun st => obs_raised (ss_succ st)) (sq_steps q) in
+      {| v_agree := r; v_ok := r; v_known := false |}
+  end.
+
 Definition judge_world3 (w : world3) : list verdict :=
   match model_domain (core_world w), spec_domain (core_world w) with
-  | Ok md, Some sd => flat_map (judge_probe w md sd) (v_probes w)
-  | _, _ => flat_map (fun _ => [broken; broken]) (v_probes w)     (* the implementation parsed it, a reading did not *)
+  | Ok md, Some sd => flat_map (judge_probe w md sd) (v_probes w) ++ map (judge_seq w md sd) (v_seqs w)
+  | _, _ => flat_map (fun _ => [broken; broken]) (v_probes w) ++ map (fun _ => broken) (v_seqs w)
+                                                                   (* the implementation parsed it, a reading did not *)
   end.
 
 (* ---------- compact worlds: the exhaustive small scope ---------- *)
@@ -114,6 +205,22 @@ Record xprobe := {
   xp_forced : obs cstate
 }.
 
+Record xstep := {
+  xt_src : option nat;              (* None = the state the previous call returned; Some j = a fresh copy of state j *)
+  xt_allow : bool;
+  xt_succ : obs cstate;
+  xt_valerr : bool;
+  xt_late : option (obs cstate)
+}.
+
+Record xseq := {
+  xq_call : nat;
+  xq_start : nat;
+  xq_order : list nat;
+  xq_uorder : list nat;
+  xq_steps : list xstep
+}.
+
 Record xworld := {
   x_text : string;
   x_nums : list (string * float);
@@ -123,7 +230,8 @@ Record xworld := {
   x_fkeys : list atom;
   x_states : list cstate;
   x_calls : list (string * list string);
-  x_probes : list xprobe
+  x_probes : list xprobe;
+  x_seqs : list xseq
 }.
 
 Definition decode_state (w : xworld) (c : cstate) : state :=
@@ -141,9 +249,20 @@ Definition decode_probe (w : xworld) (p : xprobe) : probe3 :=
      q_app := xp_app p; q_succ := decode_obs w (xp_succ p); q_valerr := xp_valerr p;
      q_forced := decode_obs w (xp_forced p) |}.
 
+Definition decode_step (w : xworld) (t : xstep) : sstep :=
+  {| ss_src := match xt_src t with None => SPrev | Some j => SFrom (decode_state w (nth j (x_states w) ([], []))) end;
+     ss_allow := xt_allow t; ss_succ := decode_obs w (xt_succ t); ss_valerr := xt_valerr t;
+     ss_late := match xt_late t with None => None | Some o => Some (decode_obs w o) end |}.
+
+Definition decode_seq (w : xworld) (q : xseq) : seq3 :=
+  let call := nth (xq_call q) (x_calls w) ("", []) in
+  {| sq_action := fst call; sq_args := snd call;
+     sq_start := decode_state w (nth (xq_start q) (x_states w) ([], []));
+     sq_order := xq_order q; sq_uorder := xq_uorder q; sq_steps := map (decode_step w) (xq_steps q) |}.
+
 Definition decode_world (w : xworld) : world3 :=
   {| v_text := x_text w; v_nums := x_nums w; v_eps := x_eps w; v_objs := x_objs w;
-     v_probes := map (decode_probe w) (x_probes w) |}.
+     v_probes := map (decode_probe w) (x_probes w); v_seqs := map (decode_seq w) (x_seqs w) |}.
 
 Inductive anyworld := WFull (w : world3) | WCompact (w : xworld).
 
@@ -168,5 +287,23 @@ Definition explain (w : anyworld) :=
               end,
               map verdict_char (judge_probe v md sd p)))
           (v_probes v)
+  | _, _ => []
+  end.
+
+(* the same for the call sequences of a world: per call what the model returned, whether the spec finds the call
+   applicable / its firing effects consistent in the spec's previous state, the spec successor, and the two judgements *)
+Definition explain_seqs (w : anyworld) :=
+  let v := match w with WFull v => v | WCompact x => decode_world x end in
+  match model_domain (core_world v), spec_domain (core_world v) with
+  | Ok md, Some sd =>
+      map (fun q =>
+             (sq_action q, sq_args q, sq_order q, sq_uorder q, sq_start q,
+              match find_action sd (sq_action q) with
+              | Some A => map (fun sv => (sv_model sv, sv_app sv, sv_cons sv, sv_spec sv, sv_agree sv, sv_ok sv))
+                              (seq_views v md sd A q (sq_start q) (sq_start q) (sq_steps q))
+              | None => []
+              end,
+              verdict_char (judge_seq v md sd q)))
+          (v_seqs v)
   | _, _ => []
   end.
